@@ -518,6 +518,74 @@ def run(ctx):
                     "complement form: %s, so the orientation must be %s" % (
                         got, out[0:2], want_compl,
                         "-" if want_compl else "+"))
+    # a link between the same oriented segments whose overlap is another
+    # alignment is another edge: the path does not adopt it (it waits for
+    # its own link with a placeholder), whichever of the two arrives first
+    Lk = repo.cls("line.edge.Link")
+    for d in descr:
+        if d[4][0] == "*":
+            continue
+        for form in ("direct", "complement"):
+            base_q = d if form == "direct" else comp_fields(d)
+            q = base_q[:4] + (("Z", False),)
+            ctx.instance(R)
+            stored = mk_link(oh, segs[d[0]], d[1], segs[d[2]], d[3],
+                             oh.ov(*d[4]), label="stored")
+            made = []
+
+            class PH2(OvHooks):
+                def before_inline(self, ev, func, args, kwargs, q=q):
+                    if func.name == "_compute_required_links":
+                        return [[ol(segs[q[0]], q[1]), ol(segs[q[2]], q[3]),
+                                 self.ov(*q[4])]]
+                    return NotImplemented
+
+                def method(self, ev, base, name, args, kwargs, node,
+                           stored=stored, d=d):
+                    if isinstance(base, Abs) and base.attrs.get("__gfa__"):
+                        if name == "segment":
+                            return segs.get(self.name_of(args[0]))
+                        if name == "_search_link":
+                            # Finders._search_link: the link between the two
+                            # oriented segments whose overlap is compatible
+                            # with the one asked for (None / '*' asks for any)
+                            c = args[2] if len(args) > 2 else None
+                            if c is None or not self.is_ov(c) or \
+                                    c.attrs["cid"] == "*" or \
+                                    c.attrs["cid"] == d[4][0]:
+                                return stored
+                            return None
+                    if isinstance(base, Abs) and name == "connect" and \
+                            base.label == "virtual link":
+                        ev.events.append(("connect", base.label))
+                        return None
+                    return super().method(ev, base, name, args, kwargs, node)
+
+                def construct(self, ev, cls, args, kwargs):
+                    if cls is Lk:
+                        v = Abs(Lk, label="virtual link", _refs={},
+                                **(args[0] if args and
+                                   isinstance(args[0], dict) else {}))
+                        made.append(v)
+                        return v
+                    return super().construct(ev, cls, args, kwargs)
+            gfa = Abs(None, label="gfa", __gfa__=True, segments=segs,
+                      _segments_first_order=False)
+            p = Abs(P, label="path", _gfa=gfa, _refs={})
+            out = eval_function(repo, f_il, [p], hooks=PH2(repo))
+            links = p.attrs["_refs"].get("links") \
+                if out[0] == "return" else None
+            ok = isinstance(links, list) and len(links) == 1 and \
+                isinstance(links[0], Abs) and len(made) == 1 and \
+                links[0].attrs.get("line") is made[0]
+            ctx.oblige(ok)
+            if not ok:
+                ctx.violation(
+                    R, f_il.short, "stored=%s,required=%s" % (
+                        fmt_link(d), fmt_link(q)),
+                    "outcome %r: the path must create a placeholder for the "
+                    "link it names (overlap Z) and not adopt the stored "
+                    "link, which has another overlap" % (out[0:2],))
     ctx.exhaustive[R] = True
 
     # ------------------------------------------------------------------
